@@ -127,6 +127,56 @@ fn bar_line(line: &str) -> String {
     })
 }
 
+/// run `f` with fd 1 redirected to a scratch file; returns what was written there
+fn capture_stdout(f: impl FnOnce()) -> Vec<u8> {
+    use std::io::Write;
+    use std::os::fd::AsRawFd;
+    std::io::stdout().flush().ok();
+    let path = std::env::temp_dir().join(format!("n2verif-out-{}", std::process::id()));
+    let file = std::fs::File::create(&path).unwrap();
+    let saved = unsafe { libc::dup(1) };
+    unsafe { libc::dup2(file.as_raw_fd(), 1) };
+    let r = std::panic::catch_unwind(std::panic::AssertUnwindSafe(f));
+    std::io::stdout().flush().ok();
+    unsafe {
+        libc::dup2(saved, 1);
+        libc::close(saved);
+    }
+    drop(file);
+    let out = std::fs::read(&path).unwrap_or_default();
+    let _ = std::fs::remove_file(&path);
+    if let Err(e) = r {
+        std::panic::resume_unwind(e);
+    }
+    out
+}
+
+/// v=<0|1> then `;`-separated: S id desc cmd | F id desc cmd hide term hex  -> the bytes the plain console printed
+fn dumb_line(line: &str) -> String {
+    let line = line.to_string();
+    guarded(move || {
+        let (v, rest) = line.split_once(' ').unwrap_or((&line, ""));
+        let opt = |s: &str| if s == "~" { None } else { Some(raw_string(unhex(s))) };
+        let verbose = v == "v=1";
+        let rest = rest.to_string();
+        let out = capture_stdout(move || {
+            let st = n2::verif::Dumb::new(verbose);
+            for op in rest.split(';') {
+                let w = words(op);
+                if w.is_empty() {
+                    continue;
+                }
+                match w[0] {
+                    "S" => st.task_started(w[1].parse().unwrap(), opt(w[2]), opt(w[3])),
+                    "F" => st.task_finished(w[1].parse().unwrap(), opt(w[2]), opt(w[3]), w[4] == "1", w[5].parse().unwrap(), unhex(w[6])),
+                    _ => panic!("bad op"),
+                }
+            }
+        });
+        format!("ok {}", hex(&out))
+    })
+}
+
 /// task::run_task around a scripted command:
 /// <showinc 0|1> <term 0|1|2> <stale depfile ~|hex> <depfile the command writes ~|hex> <rspfile content ~|hex> <chunk,chunk,...|->
 fn task_line(line: &str) -> String {
@@ -490,6 +540,7 @@ fn main() {
         "fancy" => fancy_line,
         "lossy" => lossy_line,
         "task" => task_line,
+        "dumb" => dumb_line,
         "dedup" => dedup_line,
         "hist" => hist::hist_line,
         "db" => db_line,
